@@ -446,6 +446,18 @@ def m_dt_timelike(ex, site, a):
     return deref(ex, a[0]).fields[0].fields[1].fields[{'hour': 0, 'minute': 1, 'second': 2, 'nanosecond': 3}[site.method]]
 
 
+@model('NaiveDate::and_hms_opt', 'NaiveDate::and_hms_milli_opt', 'NaiveDate::and_hms_micro_opt', 'NaiveDate::and_hms_nano_opt')
+def m_and_hms_opt(ex, site, a):
+    # chrono: NaiveTime::from_hms*_opt(h, m, s[, frac]).map(|t| self.and_time(t))
+    class S: pass
+    s2 = S(); s2.method = site.method.replace('and_', 'from_')
+    t = m_from_hms_opt(ex, s2, a[1:])
+    if t.variant == 0: return none()
+    d = a[0]
+    if isinstance(d, Ptr): d = deref(ex, d)
+    return some(ndt(d, t.fields[0]))
+
+
 @model('NaiveDate::and_time', 'NaiveDateTime::new')
 def m_and_time(ex, site, a): return ndt(deref(ex, a[0]), deref(ex, a[1]))
 @model('NaiveDateTime::date')
